@@ -70,3 +70,100 @@ Qed.
 Example json_attr_unsupported : save_json ty_attr (VObj [([97], VInt 1); ([115], VStr []); ([98], VBool false); ([117], VInt 0); ([118], VInt 0); ([116], VStr [])]) = None /\
   has_type ty_attr (VObj [([97], VInt 1); ([115], VStr []); ([98], VBool false); ([117], VInt 0); ([118], VInt 0); ([116], VStr [])]) = true.
 Proof. split; reflexivity. Qed.
+
+(* ================================================================== XML *)
+
+(* an attribute holds a scalar (its text); below the root anything; at the root only a sequence, a map or a class (the
+   XML root scope serialises arrays and objects only: a scalar or an optional at the root is rejected at compile time) *)
+Definition attr_ty (t : ty) : bool :=
+  match t with TyNull | TyBool | TyInt _ | TyDbl | TyStr | TyFlt | TyEnum _ => true | _ => false end.
+
+Fixpoint xml_ty (t : ty) : bool :=
+  match t with
+  | TyVec e | TyMap e | TyOpt e => xml_ty e
+  | TyObj fields => forallb (fun f => match snd (fst f) with FElem => xml_ty (snd f) | FAttr => attr_ty (snd f) end) fields
+  | _ => true
+  end.
+
+Definition xml_root_ty (t : ty) : bool := is_container t && xml_ty t.
+
+Section XmlDefined.
+  Variables dtoa17 dtoa9 : N -> list N.
+
+  Lemma scalar_text_defined t v : attr_ty t = true -> has_type t v = true -> exists s, scalar_text dtoa17 dtoa9 t v = Some s.
+  Proof.
+    intros Ha Ht. destruct t; try discriminate; destruct v; try (cbn in Ht; discriminate); cbn [scalar_text]; try (eexists; reflexivity).
+    cbn [has_type] in Ht. apply nth_error_defined. lia.
+  Qed.
+
+  Definition elem_defined (t : ty) : Prop := forall name v, has_type t v = true -> exists x, xml_elem dtoa17 dtoa9 name t v = Some x.
+
+  Lemma scalar_elem_defined t : attr_ty t = true -> elem_defined t.
+  Proof.
+    intros Ha name v Ht. destruct (scalar_text_defined t v Ha Ht) as [s Hs].
+    destruct t; try discriminate; cbn [xml_elem]; rewrite Hs; eexists; reflexivity.
+  Qed.
+
+  Lemma xml_elem_defined t : xml_ty t = true -> elem_defined t.
+  Proof.
+    induction t as [ | | k | | | e IH | e IH | fields IH | e IH | | names ] using ty_ind'; intros Hx;
+      try (apply scalar_elem_defined; reflexivity); intros name v Ht.
+    - (* vector *) destruct v as [ | | | | | l | | | | ]; try (cbn in Ht; discriminate). cbn [has_type] in Ht. cbn [xml_ty] in Hx. cbn [xml_elem].
+      destruct (opt_map_defined (fun x => xml_elem dtoa17 dtoa9 (item_name e x) e x) l) as [ys Hys]; [|rewrite Hys; eexists; reflexivity].
+      apply Forall_forall. intros x Hin. apply (IH Hx). exact (proj1 (forallb_forall _ _) Ht x Hin).
+    - (* map *) destruct v as [ | | | | | | m | | | ]; try (cbn in Ht; discriminate). cbn [has_type] in Ht. cbn [xml_ty] in Hx.
+      apply andb_true_iff in Ht. destruct Ht as [Ht _]. rewrite xml_elem_map.
+      assert (G : exists cs, xmap_save dtoa17 dtoa9 e m = Some cs); [|destruct G as [cs ->]; eexists; reflexivity].
+      induction m as [|[k x] m IHm]; [exists []; reflexivity|].
+      cbn [forallb fst snd] in Ht. apply andb_true_iff in Ht. destruct Ht as [H1 H2]. apply andb_true_iff in H1. destruct H1 as [_ H1].
+      destruct (IH Hx k x H1) as [c Hc]. destruct (IHm H2) as [cs Hcs]. cbn [xmap_save]. rewrite Hc. fold (xmap_save dtoa17 dtoa9 e). rewrite Hcs. eexists; reflexivity.
+    - (* class *) destruct v as [ | | | | | | m | | | ]; try (cbn in Ht; discriminate). rewrite has_type_obj in Ht. rewrite xml_elem_obj. cbn [xml_ty] in Hx.
+      generalize (@nil (list N * list N)) as attrs. generalize (@nil xnode) as ch. revert m Ht.
+      induction IH as [|[[k fk] ft] fs Hft _ IHfs]; intros m Ht ch attrs.
+      + destruct m; [eexists; reflexivity | discriminate].
+      + destruct m as [|[k' fv] m]; [discriminate|]. cbn [obj_ty] in Ht. apply andb_true_iff in Ht. destruct Ht as [Ht Hrest]. apply andb_true_iff in Ht. destruct Ht as [_ Hfv].
+        cbn [forallb fst snd] in Hx. apply andb_true_iff in Hx. destruct Hx as [Hx1 Hx2]. cbn [snd] in Hft. cbn [xobj_save].
+        destruct fk.
+        * destruct (Hft Hx1 k fv Hfv) as [c Hc]. rewrite Hc. apply (IHfs Hx2 m Hrest).
+        * destruct (scalar_text_defined ft fv Hx1 Hfv) as [s Hs]. rewrite Hs. apply (IHfs Hx2 m Hrest).
+    - (* optional *) destruct v as [ | | | | | | | [x|] | | ]; try (cbn in Ht; discriminate); cbn [xml_elem]; [|eexists; reflexivity].
+      cbn [has_type] in Ht. cbn [xml_ty] in Hx. apply (IH Hx name x Ht).
+  Qed.
+
+  Theorem save_xml_defined key t v : xml_root_ty t = true -> has_type t v = true -> exists d, save_xml dtoa17 dtoa9 key t v = Some d.
+  Proof.
+    intros Hr Ht. unfold xml_root_ty in Hr. apply andb_true_iff in Hr. destruct Hr as [Hc Hx].
+    destruct t; try discriminate; unfold save_xml; apply (xml_elem_defined _ Hx); exact Ht.
+  Qed.
+
+  (* and nothing else at the root (UNSUPPORTED in the drivers) *)
+  Lemma save_xml_scalar_root key t v : is_container t = false -> save_xml dtoa17 dtoa9 key t v = None.
+  Proof. intros H. destruct t; try discriminate; reflexivity. Qed.
+
+  Theorem roundtrip_xml_defined xstrtod xstrtof o key t v : xml_root_ty t = true -> has_type t v = true ->
+    exists r, roundtrip_xml dtoa17 dtoa9 xstrtod xstrtof o key t v = Some r.
+  Proof. intros Hr Ht. unfold roundtrip_xml. destruct (save_xml_defined key t v Hr Ht) as [d ->]. eexists; reflexivity. Qed.
+End XmlDefined.
+
+(* ty_wfx (attributes hold null / bool / integer / double / string) is inside xml_ty *)
+Lemma ty_wfx_xml_ty t : ty_wfx t = true -> xml_ty t = true.
+Proof.
+  induction t as [ | | k | | | e IH | e IH | fields IH | e IH | | names ] using ty_ind'; intros H; try reflexivity; try (apply IH; exact H).
+  cbn [ty_wfx] in H. cbn [xml_ty]. induction IH as [|[[k fk] ft] fs Hft _ IHfs]; [reflexivity|].
+  cbn [forallb fst snd] in *. apply andb_true_iff in H. destruct H as [H1 H2]. rewrite (IHfs H2), andb_true_r.
+  destruct fk; [apply Hft; exact H1 | destruct ft; try discriminate; reflexivity].
+Qed.
+
+(* so T_C01_xml_roundtrip_adapter_outside is not vacuous: for a sequence, map or class at the root *)
+Theorem xml_roundtrip_total dtoa17 dtoa9 xstrtod xstrtof o :
+  (forall b, is_nonfinite b = false ->
+     xstrtod (dtoa17 b) = Some (Some b) /\ skip_blanks (dtoa17 b) = dtoa17 b /\ has_cr (dtoa17 b) = false /\ dtoa17 b <> []) ->
+  forall key t v, is_container t = true -> ty_wf t = true -> ty_wfx t = true -> has_type t v = true ->
+  xml_defect t v = false -> val_nonfinite v = false ->
+  roundtrip_xml dtoa17 dtoa9 xstrtod xstrtof o key t v = Some (Ok v).
+Proof.
+  intros Hd key t v Hc Hwf Hwx Ht Hdf Hnf.
+  assert (Hr : xml_root_ty t = true) by (unfold xml_root_ty; rewrite Hc, (ty_wfx_xml_ty t Hwx); reflexivity).
+  destruct (roundtrip_xml_defined dtoa17 dtoa9 xstrtod xstrtof o key t v Hr Ht) as [r Hrr].
+  rewrite Hrr. f_equal. apply (xml_roundtrip_outside dtoa17 dtoa9 xstrtod xstrtof o Hd key t v Hwf Hwx Ht Hdf Hnf r Hrr).
+Qed.
